@@ -54,8 +54,9 @@ theorem dirichletLoop_post {A : ℝ → Prop} {Pg : ℝ → Prop} (fuel : ℕ) :
     · exact Post.pure (by intro s total h; cases h)
     · rename_i hle
       have ha : 0 < a := by
-        simp only [RealLike.real_leb, RealLike.real_zero, decide_eq_true_eq, not_le] at hle
-        exact hle
+        simp only [RealLike.real_ltb, RealLike.real_zero, Bool.or_eq_true, Bool.not_eq_true', decide_eq_false_iff_not,
+          decide_eq_true_eq, not_or, not_not] at hle
+        exact hle.1
       refine Post.bind (hg a (by simp) ha) ?_
       intro r hr
       cases r with
@@ -77,12 +78,24 @@ theorem dirichletLoop_post {A : ℝ → Prop} {Pg : ℝ → Prop} (fuel : ℕ) :
           · exact hr x rfl
           · exact h4 x hx
 
-/-- error analysis of the loop: `err` exactly when some parameter is `≤ 0` (unless the fuel of an
+/-- a parameter the loop rejects: not positive, or `+Inf` (`> MaxFloat64`) -/
+def BadAlpha (a : ℝ) : Prop := a ≤ 0 ∨ (maxFloat : ℝ) < a
+
+theorem one_le_maxFloat : (1 : ℝ) ≤ (maxFloat : ℝ) := by
+  simp only [maxFloat, RealLike.real_pow, RealLike.real_one, RealLike.real_ofNat]
+  have h1 : (1 : ℝ) ≤ (2 : ℝ) ^ (52 : ℝ) := Real.one_le_rpow (by norm_num) (by norm_num)
+  have h2 : (1 : ℝ) ≤ (2 : ℝ) ^ (1023 : ℝ) := Real.one_le_rpow (by norm_num) (by norm_num)
+  have h3 : 1 / (2 : ℝ) ^ (52 : ℝ) ≤ 1 := by rw [div_le_one (by linarith)]; exact h1
+  have h4 : (1 : ℝ) ≤ 2 - 1 / (2 : ℝ) ^ (52 : ℝ) := by linarith
+  calc (1 : ℝ) = 1 * 1 := by ring
+    _ ≤ (2 - 1 / (2 : ℝ) ^ (52 : ℝ)) * (2 : ℝ) ^ (1023 : ℝ) := mul_le_mul h4 h2 (by norm_num) (by linarith)
+
+/-- error analysis of the loop: `err` exactly when some parameter is rejected (unless the fuel of an
 earlier draw ran out first); never `exit` -/
 theorem dirichletLoop_err {A : ℝ → Prop} (fuel : ℕ) :
     ∀ (alphas acc : List ℝ) (sum : ℝ),
       Post A (dirichletLoop fuel alphas acc sum) (fun r =>
-        (r = .err → ∃ a ∈ alphas, a ≤ 0) ∧ ((∃ a ∈ alphas, a ≤ 0) → r = .err ∨ r = .fuel) ∧ r ≠ .exit) := by
+        (r = .err → ∃ a ∈ alphas, BadAlpha a) ∧ ((∃ a ∈ alphas, BadAlpha a) → r = .err ∨ r = .fuel) ∧ r ≠ .exit) := by
   intro alphas
   induction alphas with
   | nil =>
@@ -93,10 +106,12 @@ theorem dirichletLoop_err {A : ℝ → Prop} (fuel : ℕ) :
     unfold dirichletLoop
     split
     · rename_i hle
-      simp only [RealLike.real_leb, RealLike.real_zero, decide_eq_true_eq] at hle
+      simp only [RealLike.real_ltb, RealLike.real_zero, Bool.or_eq_true, Bool.not_eq_true', decide_eq_false_iff_not,
+        decide_eq_true_eq, not_lt] at hle
       exact Post.pure ⟨fun _ => ⟨a, by simp, hle⟩, fun _ => Or.inl rfl, (by intro h; cases h)⟩
     · rename_i hle
-      simp only [RealLike.real_leb, RealLike.real_zero, decide_eq_true_eq, not_le] at hle
+      simp only [RealLike.real_ltb, RealLike.real_zero, Bool.or_eq_true, Bool.not_eq_true', decide_eq_false_iff_not,
+        decide_eq_true_eq, not_lt] at hle
       refine Post.bind (Post.trivial _) ?_
       · intro r _
         cases r with
@@ -110,7 +125,7 @@ theorem dirichletLoop_err {A : ℝ → Prop} (fuel : ℕ) :
             exact ⟨b, by simp [hb], hb0⟩
           · rintro ⟨b, hb, hb0⟩
             rcases List.mem_cons.mp hb with rfl | hb
-            · exact absurd hb0 (not_le.mpr hle)
+            · exact absurd hb0 hle
             · exact h2 ⟨b, hb, hb0⟩
 
 /-! ## `Dirichlet` -/
@@ -147,8 +162,8 @@ theorem dirichlet_post {A : ℝ → Prop} {Pg : ℝ → Prop} (fuel : ℕ) (fact
 /-- the error rule of `Dirichlet` (the code says `len(alpha) <= 2`) -/
 theorem dirichlet_err {A : ℝ → Prop} (fuel : ℕ) (factor : ℝ) (alphas : List ℝ) :
     Post A (dirichlet factor alphas fuel) (fun r =>
-      (r = .err → alphas.length ≤ 2 ∨ ∃ a ∈ alphas, a ≤ 0) ∧
-      ((alphas.length ≤ 2 ∨ ∃ a ∈ alphas, a ≤ 0) → r = .err ∨ r = .fuel) ∧ r ≠ .exit) := by
+      (r = .err → alphas.length ≤ 2 ∨ ∃ a ∈ alphas, BadAlpha a) ∧
+      ((alphas.length ≤ 2 ∨ ∃ a ∈ alphas, BadAlpha a) → r = .err ∨ r = .fuel) ∧ r ≠ .exit) := by
   unfold dirichlet
   simp only [RealLike.real_zero]
   split
@@ -313,7 +328,10 @@ theorem buildWeightsDirichlet_post {L : ℕ} (hL : 3 ≤ L) (fuel : ℕ) :
     · intro he
       rcases h2.1.1 he with h | ⟨a, ha, ha0⟩
       · simp at h; omega
-      · rw [List.eq_of_mem_replicate ha] at ha0; linarith
+      · rw [List.eq_of_mem_replicate ha] at ha0
+        rcases ha0 with h | h
+        · linarith
+        · exact absurd h (not_lt.2 one_le_maxFloat)
     · intro w hw
       obtain ⟨_, _, gs, g1, g2, g3⟩ := h1.1 w hw
       have hlen : gs.length = L := by simpa using g1
